@@ -297,6 +297,9 @@ pub struct RunCfg {
     pub hang_ms: u64,
     pub max_found: usize,
     pub stop_on_violation: bool,
+    /// directory for breadcrumbs: every worker records (phase, run index) in its own file before it executes a run,
+    /// so that the run that killed the process can be identified afterwards
+    pub crumbs: Option<String>,
 }
 
 struct Slot {
@@ -344,6 +347,10 @@ pub fn run_phases(ctx: &Arc<Ctx>, phases: Vec<Phase>, cfg: &RunCfg, own_prop: &s
             let keep_log = cfg.keep_log;
             let max_found = cfg.max_found;
             let stop_on_violation = cfg.stop_on_violation;
+            let crumb_file = cfg.crumbs.as_ref().and_then(|d| {
+                let _ = std::fs::create_dir_all(d);
+                std::fs::OpenOptions::new().create(true).write(true).truncate(false).open(format!("{}/w{}", d, wi)).ok()
+            });
             handles.push(std::thread::spawn(move || {
                 let phase = &phases[pi];
                 let mut opts = exec_opts_for(phase.source.prop());
@@ -368,6 +375,10 @@ pub fn run_phases(ctx: &Arc<Ctx>, phases: Vec<Phase>, cfg: &RunCfg, own_prop: &s
                     slots[wi].started_ms.store(t0.elapsed().as_millis() as u64, Ordering::Relaxed);
                     slots[wi].current.store(i + 1, Ordering::Release);
                     let t_run = Instant::now();
+                    if let Some(f) = &crumb_file {
+                        use std::os::unix::fs::FileExt;
+                        let _ = f.write_all_at(format!("{:>6} {:>20}\n", pi, i).as_bytes(), 0);
+                    }
                     let (rs, trace) = phase.source.trace(&ctx, i);
                     let o = execute(&ctx, &trace, &opts);
                     slots[wi].current.store(0, Ordering::Release);
